@@ -6,7 +6,7 @@ MaxN_thorough == <<6, 4, 3, 2>>
 CProf_quick    == {<<1, 2, 3, 5>>, <<3, 1, 5, 2>>}
 CProf_thorough == {<<1, 2, 3, 5>>, <<3, 1, 5, 2>>, <<5, 3, 2, 1>>}
 LoProf_quick    == {<<0, 0, 0, 0>>, <<-7, 4, -12, 20>>}
-LoProf_thorough == {<<0, 0, 0, 0>>, <<-7, 4, -12, 20>>, <<40, -36, 9, -4>>}
+LoProf_thorough == {<<0, 0, 0, 0>>, <<40, -36, 9, -4>>}
 NVs_quick     == {1, 3}
 NVs_thorough  == {1, 2, 3, 4}
 Pats_quick    == {1}
